@@ -145,5 +145,423 @@ def u_read_graphs():
     return u
 
 
+# =====================================================================================================================
+# read_graph: one block -> one graph.  Token-level abstraction of the lines.
+# =====================================================================================================================
+SH = z3.Function("is_S_line", INT, BOOL)                 # after lstrip, starts with '#S'
+BL = z3.Function("is_blank_line", INT, BOOL)             # strip() == ''
+HT = z3.Function("header_text", INT, INT)                # id of the text of a header line (lstrip('#').strip())
+SNT, STK = z3.Function("S_line_token_count", INT, INT), z3.Function("S_line_token", INT, INT, INT)
+SID = z3.Function("S_line_sequence_id", INT, INT)        # equal ids <=> equal node sequences (a name for tuple(nodes_seq))
+ENT, ETK = z3.Function("line_token_count", INT, INT), z3.Function("line_token", INT, INT, INT)
+ISI, NV = z3.Function("line_is_an_int_literal", INT, BOOL), z3.Function("line_int_value", INT, INT)
+ISF, FV = z3.Function("token_is_a_float_literal", INT, BOOL), z3.Function("token_float_value", INT, REAL)
+
+
+class Tok(Sym):
+    """a token produced by str.split(): stripping it again changes nothing"""
+    __slots__ = ()
+    def strip(self, *a): return self
+
+
+class _Text:
+    """any string only used inside messages"""
+    def __format__(self, spec): return "<line>"
+    def __str__(self): return "<line>"
+
+
+class _Stripped:
+    def __init__(self, j): self.j = lift(j)
+    def __eq__(self, o):
+        if o == "":
+            return Sym(BL(self.j))
+        raise Unsupported("comparison of a stripped line with %r" % (o,))
+    __hash__ = None
+    def __bool__(self): return bool(Sym(z3.Not(BL(self.j))))
+    def __format__(self, spec): return "<line>"
+
+
+class _NodesPart:
+    def __init__(self, j): self.j = lift(j)
+    def __bool__(self): return bool(Sym(SNT(self.j) >= 1))
+    def split(self):
+        j = self.j
+        return TokSeq(SNT(j), lambda q: Tok(STK(j, lift(q))), SInt, "nodes_seq")
+
+
+class _Rest:
+    def __init__(self, j): self.j = j
+    def strip(self): return _NodesPart(self.j)
+
+
+class _HdrText:
+    def __init__(self, j): self.j = j
+    def strip(self): return Sym(HT(lift(self.j)))
+
+
+class _LS2:
+    def __init__(self, j): self.j = lift(j)
+    def startswith(self, s):
+        if s == "#":
+            return Sym(H(self.j))
+        if s == "#S":
+            return Sym(SH(self.j))
+        raise Unsupported("startswith(%r) on an abstract line" % (s,))
+    def __getitem__(self, sl):
+        if isinstance(sl, slice) and sl.start == 2 and sl.stop is None and sl.step is None:
+            return _Rest(self.j)
+        raise Unsupported("slice of an abstract line other than [2:]")
+    def lstrip(self, chars=None):
+        if chars == "#":
+            return _HdrText(self.j)
+        raise Unsupported("lstrip(%r) of an abstract line" % (chars,))
+
+
+class TokSeq(SymSeq):
+    """result of split(): unpacking `u, v, w = elements` is allowed where the length is known to be 3"""
+    def __iter__(self):
+        if core.ctx().decide(self.n == 3, "three-tokens"):
+            return iter([self._at(z3.IntVal(0)), self._at(z3.IntVal(1)), self._at(z3.IntVal(2))])
+        raise Unsupported("unpacking of a token list whose length is not known to be 3")
+
+
+class Line2:
+    def __init__(self, j): self.idx = j
+    def lstrip(self, *a):
+        if a:
+            raise Unsupported("lstrip with arguments on a raw line")
+        return _LS2(self.idx)
+    def strip(self): return _Stripped(self.idx)
+    def rstrip(self): return _Text()
+    def split(self):
+        j = lift(self.idx)
+        return TokSeq(ENT(j), lambda q: Tok(ETK(j, lift(q))), SInt, "elements")
+
+
+class SLine2(Shape):
+    def sorts(self): return [INT]
+    def build(self, it): return Line2(Sym(next(it)))
+    def leaves(self, v): return [lift(v.idx)]
+
+
+def u_read_graph():
+    """graphutils.read_graph on an abstract block.  Lines are opaque; what the code can observe of them is a set of uninterpreted functions of
+    the line index (header / '#S' / blank tests, token lists, int / float literal tests and values), related by the string facts listed under
+    `assumptions`.  ensures: see the clause names."""
+    st = {}
+    ESH2 = STuple(SInt, SInt)
+
+    def pairs_of(j):
+        j = lift(j)
+        return SymSeq(z3.If(SNT(j) >= 1, SNT(j) - 1, 0), lambda q: (Sym(STK(j, lift(q))), Sym(STK(j, lift(q) + 1))), ESH2, "subpath")
+
+    class ConstraintList:
+        """constraint_subpaths: the list of subpaths, each identified by the '#S' line it came from"""
+        def __init__(self, src=None):
+            self.src = src if src is not None else SymSeq(z3.IntVal(0), lambda q: Sym(z3.IntVal(0)), SInt, "constraint_sources")
+        @property
+        def n(self): return self.src.n
+        def at(self, q): return lift(self.src._at(q))
+        def append(self, edges_list):
+            c = core.ctx()
+            j = st["cur"]
+            q = z3.Int("ap")
+            want = pairs_of(j)
+            c.prove("row:a-recorded-subpath-is-the-list-of-consecutive-node-pairs-of-its-#S-line",
+                    z3.And(lift(edges_list.n) == want.n, z3.ForAll([q], z3.Implies(z3.And(q >= 0, q < want.n), z3.And(
+                        lift(edges_list._at(q)[0]) == lift(want._at(q)[0]), lift(edges_list._at(q)[1]) == lift(want._at(q)[1]))))), prop=P, kind="xpost")
+            self.src.append(Sym(j))
+        def as_seq(self):
+            s = self.src
+            return SymSeq(s.n, lambda q: pairs_of(lift(s._at(q))), None, "constraint_subpaths")
+        def havoc(self):
+            return ConstraintList(SymSeq.fresh("constraint_sources", SInt))
+
+    class SeenSet:
+        def __init__(self, pred=None): self.pred = pred or (lambda i: z3.BoolVal(False))
+        def add(self, key):
+            k, old = key.sid, self.pred
+            self.pred = lambda i: z3.Or(old(i), i == k)
+        def __contains__(self, key): return bool(Sym(self.pred(key.sid)))
+        @classmethod
+        def fresh(cls):
+            f = z3.Function(core.ctx().name("seen"), INT, BOOL)
+            return cls(lambda i: f(i))
+
+    class SeqKey:
+        def __init__(self, sid): self.sid = sid
+
+    def tuple_(x):
+        if isinstance(x, TokSeq) and x.name == "nodes_seq":
+            return SeqKey(SID(st["cur"]))
+        return tuple(x)
+
+    def zip_(a, b):
+        n = z3.If(a.n <= b.n, a.n, b.n)
+        return SymSeq(n, lambda q: (a._at(q), b._at(q)), ESH2, "zip")
+
+    def int__(x):
+        if isinstance(x, _Stripped):
+            if not core.ctx().decide(ISI(x.j), "int-literal"):
+                raise ValueError("invalid literal for int()")
+            return Sym(NV(x.j))
+        from pyvc.rt import BUILTINS
+        return BUILTINS["int"](x)
+
+    def float__(x):
+        if isinstance(x, Tok):
+            if not core.ctx().decide(ISF(x.t), "float-literal"):
+                raise ValueError("could not convert string to float")
+            return Sym(FV(x.t))
+        from pyvc.rt import BUILTINS
+        return BUILTINS["float"](x)
+
+    class GState:
+        def __init__(self, has, flow): self.has, self.flow = has, flow
+
+    class GStub(Tracked):
+        def __init__(self):
+            self.graph = {}
+            self.st = GState(lambda a, b: z3.BoolVal(False), lambda a, b: z3.RealVal(0))
+            self.nn, self.mm = core.ctx().fresh_const("number_of_nodes", INT), core.ctx().fresh_const("number_of_edges", INT)
+        def add_edge(self, u, v, flow=None):
+            u, v, w = lift(u), lift(v), lift(flow)
+            oh, of = self.st.has, self.st.flow
+            object.__setattr__(self, "st", GState(lambda a, b: z3.Or(oh(a, b), z3.And(a == u, b == v)), lambda a, b: z3.If(z3.And(a == u, b == v), w, of(a, b))))
+        def has_edge(self, u, v): return Sym(self.st.has(lift(u), lift(v)))
+        def number_of_nodes(self): return Sym(self.nn)
+        def number_of_edges(self): return Sym(self.mm)
+
+    def fresh_gstate(old):
+        c = core.ctx()
+        hf, ff = z3.Function(c.name("has_edge"), INT, INT, BOOL), z3.Function(c.name("flow_of"), INT, INT, REAL)
+        return GState(lambda a, b: hf(a, b), lambda a, b: ff(a, b))
+
+    class NX:
+        @staticmethod
+        def DiGraph():
+            st["G"] = GStub()
+            return st["G"]
+
+    WIDTH = z3.Int("width_of_the_graph")
+
+    class _StG:
+        def __init__(self, G): st["width_of"] = G
+        def get_width(self): return Sym(WIDTH)
+
+    class _StdMod:
+        stDiGraph = _StG
+
+    import builtins as _bi
+
+    def import_(name, globals=None, locals=None, fromlist=(), level=0):
+        if name == "flowpaths" and fromlist and "stdigraph" in fromlist:
+            class M:
+                stdigraph = _StdMod
+            return M
+        return _bi.__import__(name, globals, locals, fromlist, level)
+    bdict = dict(_bi.__dict__)
+    bdict["__import__"] = import_
+
+    # ---- the block
+    def is_edge_line(t): return z3.And(z3.Not(BL(t)), z3.Not(H(t)))
+    def edge_line_ok(t): return z3.And(ENT(t) == 3, ISF(ETK(t, 2)))
+
+    class Raw(SymSeq):
+        def __getitem__(self, j):
+            if not isinstance(j, slice):
+                st["cur"] = lift(j)
+            return SymSeq.__getitem__(self, j)
+
+    # ---- invariants
+    def hdr_state(ns, upto):
+        """clauses relating header_lines / constraint_subpaths / subpaths_seen to the lines [0, upto)"""
+        hl, C, seen = ns["header_lines"], ns["constraint_subpaths"], ns["subpaths_seen"]
+        t, f, q, q2, i = z3.Ints("ht hf hq hq2 hi")
+        src = C.at
+        return {"header-texts:the-first-recorded-text-is-that-of-the-first-non-#S-header-line":
+                    z3.And(z3.Implies(hl.n == 0, z3.ForAll([t], z3.Implies(z3.And(t >= 0, t < upto), SH(t)))),
+                           z3.Implies(hl.n > 0, z3.Exists([f], z3.And(f >= 0, f < upto, z3.Not(SH(f)), lift(hl._at(z3.IntVal(0))) == HT(f),
+                                                                     z3.ForAll([t], z3.Implies(z3.And(t >= 0, t < f), SH(t))))))),
+                "constraints:each-comes-from-a-#S-line-with-at-least-two-nodes,-in-file-order,-no-sequence-twice":
+                    z3.And(z3.ForAll([q], z3.Implies(z3.And(q >= 0, q < C.n), z3.And(src(q) >= 0, src(q) < upto, SH(src(q)), SNT(src(q)) >= 2))),
+                           z3.ForAll([q, q2], z3.Implies(z3.And(q >= 0, q < q2, q2 < C.n), z3.And(src(q) < src(q2), SID(src(q)) != SID(src(q2)))))),
+                "seen-set=the-sequences-of-the-#S-lines-so-far":
+                    z3.ForAll([i], seen.pred(i) == z3.Exists([t], z3.And(t >= 0, t < upto, SH(t), SNT(t) >= 1, SID(t) == i))),
+                "constraints:every-#S-line-with-at-least-two-nodes-is-represented-by-its-first-occurrence":
+                    z3.ForAll([t], z3.Implies(z3.And(t >= 0, t < upto, SH(t), SNT(t) >= 2), z3.Exists([q], z3.And(q >= 0, q < C.n, SID(src(q)) == SID(t), src(q) <= t))))}
+
+    def inv_hdr(ns, seq, done):
+        idx, N = lift(ns["idx"]), st["N"]
+        t = z3.Int("it")
+        cl = {"scan-in-range-and-only-header-lines-passed": z3.And(idx >= 0, idx <= N, z3.ForAll([t], z3.Implies(z3.And(t >= 0, t < idx), H(t))))}
+        cl.update(hdr_state(ns, idx))
+        return cl
+
+    def enter_blank(ns, it=None):
+        st["hp"] = lift(ns["idx"])
+
+    def inv_blank(ns, seq, done):
+        idx, N, hp = lift(ns["idx"]), st["N"], st["hp"]
+        t = z3.Int("bt")
+        return {"only-blank-lines-skipped": z3.And(idx >= hp, idx <= N, z3.ForAll([t], z3.Implies(z3.And(t >= hp, t < idx), BL(t))))}
+
+    def edges_state(G, lo, hi):
+        a, b, t, t2 = z3.Ints("ea eb et et2")
+        has, flow = G.st.has, G.st.flow
+        mine = lambda x: z3.And(x >= lo, x < hi, is_edge_line(x))
+        return {"every-edge-line-so-far-is-well-formed-and-its-edge-is-in-the-graph":
+                    z3.ForAll([t], z3.Implies(mine(t), z3.And(edge_line_ok(t), has(ETK(t, 0), ETK(t, 1))))),
+                "every-edge-of-the-graph-is-listed-and-carries-the-weight-of-its-last-line":
+                    z3.ForAll([a, b], z3.Implies(has(a, b), z3.Exists([t], z3.And(mine(t), ETK(t, 0) == a, ETK(t, 1) == b, flow(a, b) == FV(ETK(t, 2)),
+                                                                                  z3.ForAll([t2], z3.Implies(z3.And(t2 > t, mine(t2)), z3.Not(z3.And(ETK(t2, 0) == a, ETK(t2, 1) == b))))))))}
+
+    def enter_edges(ns, it=None):
+        st["e0"] = lift(ns["idx"])
+
+    def inv_edges(ns, seq, done):
+        return edges_state(ns["G"], st["e0"], st["e0"] + lift(done))
+
+    def inv_val_outer(ns, seq, done):
+        C, G = ns["constraint_subpaths"], ns["G"]
+        q, p = z3.Ints("vq vp")
+        return {"constraint-edges-checked-so-far-are-edges-of-the-graph":
+                    z3.ForAll([q, p], z3.Implies(z3.And(q >= 0, q < lift(done), p >= 0, p < SNT(C.at(q)) - 1), G.st.has(STK(C.at(q), p), STK(C.at(q), p + 1))))}
+
+    def enter_val_inner(ns, it=None):
+        st["vq"] = st["vdone"]
+
+    def inv_val_outer_rec(ns, seq, done):
+        st["vdone"] = lift(done)
+        return inv_val_outer(ns, seq, done)
+
+    def inv_val_inner(ns, seq, done):
+        C, G = ns["constraint_subpaths"], ns["G"]
+        j = C.at(st["vq"])
+        p = z3.Int("wp")
+        return {"edges-of-the-current-constraint-checked-so-far-are-edges-of-the-graph":
+                    z3.ForAll([p], z3.Implies(z3.And(p >= 0, p < lift(done)), G.st.has(STK(j, p), STK(j, p + 1))))}
+
+    def h2(c, f):
+        N = c.fresh_const("n_block_lines", INT)
+        c.assume(N >= 0)
+        st.clear()
+        st.update(N=N, cur=None)
+        t = z3.Int("at")
+        c.assume(z3.ForAll([t], z3.And(z3.Implies(SH(t), H(t)), z3.Implies(BL(t), z3.Not(H(t))), BL(t) == (ENT(t) == 0), ENT(t) >= 0, SNT(t) >= 0)))
+        t1, t2, pp = z3.Ints("s1 s2 sp")
+        c.assume(z3.ForAll([t1, t2], z3.Implies(SID(t1) == SID(t2), z3.And(SNT(t1) == SNT(t2), z3.ForAll([pp], STK(t1, pp) == STK(t2, pp))))))      # equal ids = equal sequences
+        raw = Raw(N, lambda j: Line2(Sym(lift(j))), SLine2(), "graph_raw")
+        lits = iter(["header_lines", "constraint_subpaths"])
+
+        def new_list():
+            which = next(lits, None)
+            if which == "header_lines":
+                return SymSeq(z3.IntVal(0), lambda q: Sym(z3.IntVal(0)), SInt, "header_lines")
+            if which == "constraint_subpaths":
+                return ConstraintList()
+            raise Unsupported("a third list display in read_graph")
+        st["new_list"] = new_list
+        raised = None
+        try:
+            G = f(raw)
+        except ValueError as e:
+            raised = e
+        hp = st.get("hp")                    # end of the header prefix (set when the blank-skipping loop is entered)
+        if hp is None:
+            raise Unsupported("the blank-skipping loop was never reached")
+        cnt = st["cur"] if "G" not in st else st["cnt"]
+        a, b, q, p, t2 = z3.Ints("pa pb pq pp pt2")
+        if raised is not None:
+            if "G" not in st:
+                # before the graph exists: missing count line, or a count line that is no integer
+                cur = st["cur_at_blank_exit"]
+                c.prove("xpost:ValueError-before-any-edge-only-for-a-missing-or-non-integer-vertex-count-line",
+                        z3.Or(cur >= N, z3.Not(ISI(cur))), prop=P, kind="xpost")
+                return
+            G = st["G"]
+            e0 = st.get("e0")
+            if st.get("validating"):
+                C = st["C"]
+                c.prove("xpost:ValueError-after-the-edges-only-for-a-constraint-edge-missing-from-the-graph",
+                        z3.Exists([q, p], z3.And(q >= 0, q < C.n, p >= 0, p < SNT(C.at(q)) - 1, z3.Not(G.st.has(STK(C.at(q), p), STK(C.at(q), p + 1))))), prop=P, kind="xpost")
+                return
+            c.prove("xpost:ValueError-among-the-edge-lines-only-for-a-line-without-exactly-three-tokens-or-a-non-numeric-weight",
+                    z3.Exists([t], z3.And(t >= e0, t < N, is_edge_line(t), z3.Not(edge_line_ok(t)))), prop=P, kind="xpost")
+            return
+        # ---- normal return
+        cntl = st["cnt"]
+        c.prove("post:the-vertex-count-line-is-the-first-non-blank-line-after-the-header-lines-and-is-an-integer",
+                z3.And(cntl >= hp, cntl < N, z3.Not(BL(cntl)), ISI(cntl), z3.ForAll([t], z3.Implies(z3.And(t >= hp, t < cntl), BL(t))),
+                       z3.ForAll([t], z3.Implies(z3.And(t >= 0, t < hp), H(t))), z3.Or(hp == N, z3.Not(H(hp)))), prop=P)
+        gid = G.graph.get("id")
+        f0 = z3.Int("f0")
+        c.prove("post:id=text-of-the-first-header-line-that-is-not-a-#S-line",
+                z3.Implies(z3.Exists([t], z3.And(t >= 0, t < hp, z3.Not(SH(t)))),
+                           z3.Exists([f0], z3.And(f0 >= 0, f0 < hp, z3.Not(SH(f0)), z3.ForAll([t], z3.Implies(z3.And(t >= 0, t < f0), SH(t))),
+                                                  (lift(gid) == HT(f0)) if isinstance(gid, Sym) and gid.t.sort() == INT else z3.BoolVal(False)))), prop=P)
+        C = G.graph.get("constraints")
+        c.prove("post:constraints-are-stored-on-the-graph", z3.BoolVal(isinstance(C, ConstraintList)), prop=P)
+        if isinstance(C, ConstraintList):
+            ns = dict(header_lines=st["hl_final"], constraint_subpaths=C, subpaths_seen=st["seen_final"])
+            for k, v in hdr_state(ns, hp).items():
+                if k.startswith("constraints:"):
+                    c.prove("post:" + k, v, prop=P)
+        zero = NV(cntl) == 0
+        if st.get("edges_parsed"):
+            e0 = st["e0"]
+            c.prove("post:edge-parsing-starts-right-after-the-count-line", e0 == cntl + 1, prop=P)
+            for k, v in edges_state(G, e0, N).items():
+                c.prove("post:" + k, v, prop=P)
+            c.prove("post:every-constraint-edge-is-an-edge-of-the-graph",
+                    z3.ForAll([q, p], z3.Implies(z3.And(q >= 0, q < C.n, p >= 0, p < SNT(C.at(q)) - 1), G.st.has(STK(C.at(q), p), STK(C.at(q), p + 1)))), prop=P)
+            c.prove("post:stored-n-m-w-are-the-graph's-own-counts-and-the-width-of-this-graph",
+                    z3.And(lift(G.graph.get("n", Sym(z3.IntVal(-1)))) == G.nn, lift(G.graph.get("m", Sym(z3.IntVal(-1)))) == G.mm,
+                           lift(G.graph.get("w", Sym(z3.IntVal(-1)))) == WIDTH, z3.BoolVal(st.get("width_of") is G)), prop=P)
+            c.prove("post:edges-are-parsed-unless-the-count-is-0", z3.Not(zero), prop=P)
+        else:
+            c.prove("post:no-edge-is-parsed-only-for-a-zero-vertex-block", zero, prop=P)
+            c.prove("post:a-zero-vertex-block-yields-a-graph-without-edges", z3.ForAll([a, b], z3.Not(G.st.has(a, b))), prop=P)
+
+    # hooks that record the stages
+    def enter_blank2(ns, it=None):
+        enter_blank(ns, it)
+        st["hl_final"], st["seen_final"] = ns["header_lines"], ns["subpaths_seen"]
+
+    def inv_blank2(ns, seq, done):
+        st["cur_at_blank_exit"] = lift(ns["idx"])
+        st["cnt"] = lift(ns["idx"])
+        return inv_blank(ns, seq, done)
+
+    def enter_edges2(ns, it=None):
+        enter_edges(ns, it)
+        st["edges_parsed"] = True
+
+    def enter_val(ns, it=None):
+        st["validating"] = True
+        st["C"] = ns["constraint_subpaths"]
+
+    gst = ("G", "st")
+    tmp = ("stripped", "nodes_part", "nodes_seq", "seq_key", "edges_list", "line", "elements", "u", "v", "w_str", "w", "subpath")
+    loops = {0: dict(inv=inv_hdr, prop=P, keep=tmp,
+                     havoc={"header_lines": lambda old: SymSeq.fresh("header_lines", SInt), "constraint_subpaths": lambda old: old.havoc(),
+                            "subpaths_seen": lambda old: SeenSet.fresh()}),
+             1: dict(inv=inv_blank2, prop=P, on_entry=enter_blank2, keep=tmp),
+             2: dict(inv=inv_edges, prop=P, on_entry=enter_edges2, keep=tmp, modifies=[(gst, fresh_gstate)]),
+             3: dict(inv=inv_val_outer_rec, prop=P, on_entry=enter_val, keep=tmp, iterable=lambda it: it.as_seq()),
+             4: dict(inv=inv_val_inner, prop=P, on_entry=enter_val_inner, keep=tmp)}
+    g = dict(utils=UtilsStub, nx=NX, set=lambda: SeenSet(), tuple=tuple_, zip=zip_, int=int__, float=float__, __builtins__=bdict)
+    from vf.replay import replay_read_graph
+    return Unit(F, "read_graph", h2, globs=g, loops=loops, props=[P], literals=dict(list=lambda: st["new_list"]()), replay=replay_read_graph,
+                assumptions=["string facts (trusted): a '#S' line is a header line; a blank line is no header line; strip()=='' iff split() is empty; a token returned by split() is "
+                             "unchanged by strip(); a non-empty stripped text has at least one token; int()/float() raise ValueError exactly on non-literals",
+                             "SID names the node sequence of a '#S' line: equal ids iff equal sequences (tuple equality)",
+                             "networkx: add_edge(u, v, flow=w) adds the edge or overwrites its flow; has_edge reads that relation",
+                             "stDiGraph(G).get_width() is the width of G (C09)"],
+                abstractions=["lines are opaque: header / '#S' / blank tests, token lists, literal tests and values are uninterpreted functions of the line index",
+                              "the graph is its edge relation and flow function; node / edge counts are opaque values of the graph object",
+                              "messages (f-strings) are not modelled"])
+
+
 def all_units():
-    return [u_read_graphs()]
+    return [u_read_graphs(), u_read_graph()]
